@@ -14,7 +14,7 @@ def gen_units(rng, single=None, hosted=None, broken_p=0.0):
     single = rng.random() < 0.4 if single is None else single
     if single:
         return True, [[0, execlib.gen_layout(rng, broken_p)]]
-    ids = hosted if hosted is not None else rng.choice([[1], [1, 2], [0, 1], [1, 255], [247], [2, 5, 17], [0]])
+    ids = hosted if hosted is not None else rng.choice([[1], [1, 2], [0, 1], [1, 255], [247], [2, 5, 17], [0], [123, 1], [123]])
     return False, [[u, execlib.gen_layout(rng, broken_p)] for u in ids]
 
 
